@@ -4,10 +4,19 @@
 From Coq Require Import List NArith ZArith Bool.
 From PKO Require Import Util Base BaseProofs Owner Api Phase ObjectSet ObjectSetProofs PhaseController DelegationProofs.
 From PKOCorr Require Import PhaseCorr SetCorr.
+From PKOCorr Require C02Corr.
 Import ListNotations.
 Local Open Scope N_scope.
 
-(** One step of a schedule: a pass of the ObjectSet controller, a pass of the ObjectSetPhase controller, or
+(** Clusters: with the multi-cluster constructors the harness runs a management cluster (ObjectSets, phase objects,
+    members of in-process phases) and a target cluster (members of delegated phases) as two recording servers that
+    share one resourceVersion / uid counter and one request log, each controller built through its real constructor
+    with the clients the managers pass. The model needs nothing new: management objects and delegated members are
+    disjoint keys, so the two stores are read as the one logical world of ObjectSet.v ([dr_store] / [dr_post] are
+    the union). A controller that reads or writes the wrong cluster shows up as a disagreement and in the monitors
+    below ([m_handover], [m_phase_teardown]).
+
+    One step of a schedule: a pass of the ObjectSet controller, a pass of the ObjectSetPhase controller, or
     the environment (kubelet-style status writes on members, third-party edits of ObjectSets), given by its
     result. *)
 Inductive dstep :=
@@ -399,7 +408,56 @@ Section StepMonitors.
                            | _ => false end) evs)
     | _, _ => true
     end.
+  (** The handover clauses of C02 on every pass of the ObjectSetPhase controller (its flavour's owner strategy, the
+      phase object as owner): every apply records the owner's revision, an adoption comes only from a revision that
+      is not higher, leaves exactly one controller, and there is no apply over an object the pass did not read. *)
+  Definition m_handover (annot : bool) : bool :=
+    match ds_step o, ds_pre_phase o with
+    | DPhase k _ _, Some p =>
+        negb (op_class p =? DefaultClass) ||
+        C02Corr.monitor
+          {| pc_flavor := flavor_of annot k; pc_force := false; pc_owner := phase_owner p; pc_prev := [];
+             pc_store := []; pc_rv := 0; pc_uid := 0; pc_teardown := op_deleting p; pc_objects := op_objects p; pc_between := [];
+             pc_res := OErr None;
+             pc_events := flat_map (fun e => match e with SMember x => [x] | _ => [] end) evs;
+             pc_post := []; pc_rv' := 0; pc_uid' := 0 |}
+    | _, _ => true
+    end.
 End StepMonitors.
+
+(** The revision an ObjectSet stamps on its members never goes down over the passes of a run: it is computed once,
+    persisted before any member is touched, and never recomputed (C02: a write never lowers a recorded revision of
+    an object the ObjectSet already controls). *)
+Definition stamped (o : dobs) : list Z :=
+  flat_map (fun e => match e with
+                     | SMember (EApply _ _ _ (POk x)) => match o_rev x with RevNum z => [z] | _ => [] end
+                     | _ => [] end) (ds_events o).
+Fixpoint sorted_z (l : list Z) : bool :=
+  match l with
+  | a :: ((b :: _) as r) => (a <=? b)%Z && sorted_z r
+  | _ => true
+  end.
+Definition m_set_revision (c : drun) : bool :=
+  forallb (fun o =>
+    match ds_step o with
+    | DSet k ns n =>
+        sorted_z (flat_map (fun o' => match ds_step o' with
+                                      | DSet k' ns' n' => if (k =? k') && (ns =? ns') && (n =? n') then stamped o' else []
+                                      | _ => [] end) (dr_steps c))
+    | _ => true
+    end) (dr_steps c).
+
+(** The phase controller lets its phase object go (removes its finalizer) only when no member is still controlled by
+    it: judged on the member store at the end of the run (nobody re-creates members for a phase object that is gone). *)
+Definition m_phase_teardown (c : drun) : bool :=
+  forallb (fun o =>
+    match ds_step o, ds_pre_phase o with
+    | DPhase k _ nm, Some p =>
+        negb (existsb (fun e => match e with SPhase (PFinalizer m false true) => m =? nm | _ => false end) (ds_events o)) ||
+        op_orphan p ||
+        forallb (fun kv => negb (is_controller (flavor_strat (flavor_of (dr_annot c) k)) (op_id p) (snd kv))) (dr_post c)
+    | _, _ => true
+    end) (dr_steps c).
 
 Definition all_steps (m : dobs -> bool) (c : drun) : bool := forallb m (dr_steps c).
 
@@ -482,7 +540,8 @@ Definition m_final (c : drun) : bool :=
             (delegated s)) (dr_sets' c).
 
 Definition monitor_run (c : drun) : bool :=
-  all_steps m_carries c && all_steps m_relay c && all_steps m_gate c && all_steps m_teardown c && all_steps m_class c && (dr_annot c || (all_steps m_nsbound c && all_steps m_preflight_reported c)) && m_final c.
+  all_steps m_carries c && all_steps m_relay c && all_steps m_gate c && all_steps m_teardown c && all_steps m_class c && (dr_annot c || (all_steps m_nsbound c && all_steps m_preflight_reported c)) && m_final c &&
+  all_steps (fun o => m_handover o (dr_annot c)) c && m_phase_teardown c && m_set_revision c.
 
 (** The clause the implementation violates (known finding): kept apart from the rest of the monitor. *)
 Definition monitor_own (c : drun) : bool := all_steps m_own c && all_steps m_remotes c && all_steps m_relay_ctrlof c.
@@ -502,7 +561,8 @@ Definition judge_parts (c : tcase) : list bool :=
   let '(t1, t2, t3) := m_twin_parts c in
   [agree d; match tc_l c with Some l => agree l | None => true end;
    all_steps m_carries d; all_steps m_relay d; all_steps m_gate d; all_steps m_teardown d; all_steps m_class d && (dr_annot d || (all_steps m_nsbound d && all_steps m_preflight_reported d)); m_final d;
-   t1; t2; t3; all_steps m_own d; all_steps m_remotes d; all_steps m_relay_ctrlof d].
+   t1; t2; t3; all_steps m_own d; all_steps m_remotes d; all_steps m_relay_ctrlof d;
+   all_steps (fun o => m_handover o (dr_annot d)) d; m_phase_teardown d; m_set_revision d].
 
 (** * The monitors accept the model (the parts that do not depend on a whole run) *)
 
